@@ -35,14 +35,26 @@ def render_amount(value, style, decimal='.'):
         body = _fmt_group(ip, ' ') + decimal + '%02d' % fp
     else:
         body = str(ip) + decimal + '%02d' % fp
-    if style == 'currency':
+    if style in ('thousands-paren', 'thousands-cur'):
+        body = _fmt_group(ip, tsep) + decimal + '%02d' % fp
+    if style in ('currency', 'cur-neg', 'paren-cur', 'thousands-cur'):
         body = '$' + body
     elif style == 'euro':
         body = '€' + body
-    if style == 'paren' and neg:
+    elif style == 'pound':
+        body = '£' + body
+    elif style == 'yen-space' and not neg:
+        body = '¥ ' + body           # symbol, blank, number (only unsigned: "- 5" is not a number anywhere)
+    if style in ('paren', 'paren-cur', 'thousands-paren') and neg:
         return '(' + body + ')'
     if style == 'int' and fp == 0:
         body = str(ip)
+    if style == 'neg-cur' and neg:
+        return '$-' + body           # currency symbol before the sign
+    if style == 'plus' and not neg:
+        return '+' + body
+    if style == 'padded':
+        return '  ' + ('-' if neg else '') + body + ' '
     return ('-' if neg else '') + body
 
 
@@ -66,7 +78,9 @@ def gen_rows(rng, n, first_id=1, year=2025, allow_rich=False, neg_rate=0.2):
             'date': [year, month, day],
             'desc': desc,
             'value': val,
-            'style': rng.choice(['plain', 'plain', 'thousands', 'currency', 'paren', 'euro', 'space', 'int']),
+            'style': rng.choice(['plain', 'plain', 'thousands', 'currency', 'paren', 'euro', 'space', 'int'] if not allow_rich else
+                                ['plain', 'thousands', 'currency', 'paren', 'euro', 'space', 'int', 'pound', 'yen-space', 'cur-neg',
+                                 'paren-cur', 'thousands-paren', 'thousands-cur', 'neg-cur', 'plus', 'padded']),
             'caps': {},
             'loc': rng.choice(['', 'WA', 'Seattle', 'NY']),
         })
@@ -185,7 +199,7 @@ def amount_cell(lay, row):
     style = row['style']
     if style == 'space' and lay['decimal'] != ',':
         style = 'plain'
-    if lay['delimiter'] == 'regex' and style == 'space':
+    if lay['delimiter'] == 'regex' and style in ('space', 'yen-space', 'padded'):
         style = 'plain'
     return render_amount(row['value'], style, lay['decimal'])
 
